@@ -9,12 +9,14 @@ seen = set(); bad = 0
 for pid, P in PROPS.items():
     for t in tiers:
         for leg in P["tiers"][t]:
+            if "harness" not in leg or leg.get("no_warm"):
+                continue
             key = (leg["flavour"], leg["harness"], tuple(leg.get("cxxflags", ())))
             if key in seen:
                 continue
             seen.add(key)
             b, log = vbuild.build_harness(leg["flavour"], os.path.join(vbuild.VERIF, leg["harness"]), with_malloc=leg.get("with_malloc", False),
-                                          extra_flags=leg.get("cxxflags", ()), link_tbb=leg.get("link_tbb", True), extra_link=leg.get("ldflags", ()))
+                                          extra_flags=leg.get("cxxflags", ()), link_tbb=leg.get("link_tbb", True), extra_link=leg.get("ldflags", ()), extra_srcs=leg.get("extra_srcs", ()))
             print(pid, leg["flavour"], leg["harness"], "ok" if b else "FAILED")
             if not b and not leg.get("optional"):
                 print(log[-3000:]); bad += 1
